@@ -33,6 +33,13 @@ func Session() {
 	if len(live) > 0 {
 		lastUs = live[len(live)-1].Us
 	}
+	if vrt.Choose("gc", 2) == 1 {
+		// release unused resources, then read again, before publishing
+		vrt.Assert(lg.GC(0) == nil, "GC")
+		_, _, err := lg.Consume(klevdb.OffsetOldest, 1)
+		vrt.Assert(err == nil, "Consume after GC")
+		vrt.Reach("gc-then-read")
+	}
 	calls := 1 + vrt.Choose("calls", vrt.Bound("calls", 2))
 	for c := 0; c < calls; c++ {
 		us := vrt.Int64("pus")
